@@ -199,7 +199,7 @@ func (e *byteEnv) acceptedAt(offset int, facts []CondFact) [256]bool {
 		e.vals = map[int]int{offset: c}
 		ok := true
 		for _, f := range facts {
-			val, known := e.eval(f.If.Cond)
+			val, known := e.eval(f.C())
 			if known && (val != 0) != f.Truth {
 				ok = false
 				break
@@ -342,8 +342,8 @@ func ruleVerbatimBytesSafe(w *World, r *Report) {
 			r.Unknown(key, w.blockPos(l.header), "more than 4096 cycles")
 		}
 		r.Quiet("C19-V %s: %d cycles (%d verbatim, %d rewriting)", key, nCycles, nVerb, nRew)
-		r.Expect("verbatim cycles in "+key, nVerb, 3)
-		r.Expect("rewriting cycles in "+key, nRew, 3)
+		r.Expect("verbatim cycles in "+key, nVerb, 1)
+		r.Expect("rewriting cycles in "+key, nRew, 1)
 	}
 	r.Expect("scanning loops with index and copy mark in URLEscape", nLoops, 1)
 }
@@ -357,7 +357,9 @@ func factsAlong(full []*ssa.BasicBlock) []CondFact {
 		if !ok || len(b.Succs) != 2 || b.Succs[0] == b.Succs[1] {
 			continue
 		}
-		out = append(out, CondFact{iff, b.Succs[0] == full[i+1]})
+		// a condition computed as a value (`a && b` in a switch case) arrives as a phi: resolve it along the path, so
+		// that the short-circuit outcome (constant false) prunes the infeasible route and the last conjunct is a fact
+		out = append(out, CondFact{iff, b.Succs[0] == full[i+1], resolveAlong(iff.Cond, full[:i+1])})
 	}
 	return out
 }
@@ -653,7 +655,7 @@ func ruleFilterNoAliasing(w *World, r *Report) {
 			}
 		}
 	}
-	r.Expect("bucket stores in BytesFilter implementations", n, 2)
+	r.Expect("bucket stores in BytesFilter implementations", n, 1)
 }
 
 // ---- C19-T ---------------------------------------------------------------------------------------
@@ -820,11 +822,13 @@ func ruleValidRune(w *World, r *Report) {
 		}
 		return nil, false
 	}
+	parseFns := map[*ssa.Function]bool{} // module helpers that hand back a parsed number (an extracted digit-run reader)
 	fromParse := func(v ssa.Value) bool {
 		found := false
 		operandsClosure(v, func(x ssa.Value) bool {
 			if c, ok := x.(*ssa.Call); ok {
-				if cal := c.Common().StaticCallee(); cal != nil && strings.HasPrefix(cal.String(), "strconv.Parse") || (cal != nil && cal.String() == "strconv.Atoi") {
+				cal := c.Common().StaticCallee()
+				if cal != nil && (strings.HasPrefix(cal.String(), "strconv.Parse") || cal.String() == "strconv.Atoi" || parseFns[cal]) {
 					found = true
 					return false
 				}
@@ -832,6 +836,22 @@ func ruleValidRune(w *World, r *Report) {
 			return true
 		})
 		return found
+	}
+	for round := 0; round < 2; round++ {
+		for _, fn := range w.Funcs {
+			if parseFns[fn] {
+				continue
+			}
+			for _, b := range fn.Blocks {
+				if rt, ok := b.Instrs[len(b.Instrs)-1].(*ssa.Return); ok {
+					for _, res := range rt.Results {
+						if isInteger(res.Type()) && fromParse(res) {
+							parseFns[fn] = true
+						}
+					}
+				}
+			}
+		}
 	}
 	// module functions that write their rune parameter raw (one level): escapeRune-like helpers
 	runeParamSinks := map[*ssa.Function]int{}
@@ -880,7 +900,7 @@ func ruleValidRune(w *World, r *Report) {
 			}
 		}
 	}
-	r.Expect("encodings of parsed code points", n, 2)
+	r.Expect("encodings of parsed code points", n, 1)
 	_ = sort.Strings
 }
 
@@ -1005,7 +1025,7 @@ func ruleFilterDerivationComplete(w *World, r *Report) {
 			}
 		}
 	}
-	r.Expect("deriving methods of BytesFilter implementations", nDeriv, 2)
+	r.Expect("deriving methods of BytesFilter implementations", nDeriv, 1)
 }
 
 // ---- C19-L: the label normaliser's pipeline ---------------------------------------------------------------------
